@@ -82,7 +82,10 @@ impl<'a> Remote<'a> {
         }
         #[cfg(compio_verif)]
         crate::verif::sched_point(crate::verif::REMOTE_PUSHED);
-        if !notified && let Some(ref waker) = shared.waker {
+        // Always wake after the push. The wake issued while the queue was full
+        // only asked the runtime to drain; the runtime may have drained and gone
+        // back to sleep before this push landed, and would never see the id.
+        if let Some(ref waker) = shared.waker {
             waker.wake_by_ref();
         }
 
